@@ -210,6 +210,9 @@ Definition qltb (a b : Q) : bool := negb (Qle_bool b a).
 
 (** Tree.RerootOutGroup(removeoutgroup, strict, tips...) *)
 Definition reroot_outgroup (remove strict : bool) (t : utree) (names : list string) : res utree :=
+  (* if len(t.Tips()) < 3 *)
+  if Nat.ltb (length (tips t)) 3
+  then Err "cannot reroot on an outgroup a tree with less than 3 tips" else
   let t1 := unroot t in
   if has_dup (node_names t1)
   then Err "NewNodeIndex error: Tree contains several node with the same name" else
